@@ -22,7 +22,8 @@ RULE = (
     "respondent first, offsets around 0 / 1 / 4.9 / 5.2 s) x per frame (offer, accept, confirm, addenda) and per "
     "transmission attempt a fate for the far end: 1-3 copies, each delivered, lost or delayed by d from {0, 0.3, 0.7, 2.9, "
     "3.1, 4.9, 5.2, 8} s, plus echo loss for the sender, plus third-party offers / orcon-style offers / accepts / confirms "
-    "between other devices at generated instants; afterwards a second fault-free attempt. Non-trivial = a duplicate, a "
+    "between other devices at generated instants; a 'resent' mode in which the accept gets through only on the respondent's own 2nd/3rd "
+    "transmission and the confirm arrives 0.3-2.5 s later (both ends must then succeed); afterwards a second fault-free attempt. Non-trivial = a duplicate, a "
     "loss, a delay within +-0.3 s of a wait, or third-party traffic; distinct by the whole scenario."
 )
 
@@ -86,6 +87,13 @@ def scenario_strategy() -> Any:
             for attempt in (1, 2, 3, 4):
                 out[f"{ph}:{attempt}"] = {"copies": [{"lose": what in ("far", "both"), "d": 0.0}], "echo": what == "far"}
             return out
+        if mode == "resent":
+            # the accept needs the sender's own re-transmission: its first 1-2 transmissions vanish (no echo, nothing delivered), the next
+            # one gets through; and the confirm reaches the respondent late, yet inside its stated 3 s wait
+            for attempt in range(1, draw(st.integers(1, 2)) + 1):
+                out[f"accept:{attempt}"] = {"copies": [{"lose": True, "d": 0.0}], "echo": False}
+            out["confirm:1"] = {"copies": [{"lose": False, "d": draw(st.sampled_from((0.3, 0.7, 1.5, 2.0, 2.5)))}], "echo": True}
+            return out
         for ph in ("offer", "accept", "confirm", "addenda"):
             for attempt in (1, 2, 3, 4):
                 if mode == "clean":
@@ -108,13 +116,13 @@ def scenario_strategy() -> Any:
     def scenario(draw: Any) -> dict:
         fi = draw(st.integers(0, len(FLOWS) - 1))
         flow = FLOWS[fi]
-        mode = draw(st.sampled_from(("clean", "dups", "dups", "delays", "delays", "faults", "faults", "faults", "dead")))
+        mode = draw(st.sampled_from(("clean", "dups", "dups", "delays", "delays", "faults", "faults", "faults", "dead", "resent")))
         third = []
-        for _ in range(draw(st.integers(0, 3)) if mode not in ("clean", "delays", "dead") else 0):
+        for _ in range(draw(st.integers(0, 3)) if mode not in ("clean", "delays", "dead", "resent") else 0):
             third.append({"t": draw(st.sampled_from((0.05, 0.3, 0.6, 1.0, 2.0, 3.05, 4.0, 6.0))), "kind": draw(st.sampled_from(("offer", "orcon-offer", "accept", "confirm", "addenda")))})
         return {"flow": fi, "mode": mode, "fates": draw(fates(mode)), "third": third, "after_offer_only": True,
                 "start": {"resp": draw(st.sampled_from((0.0, 0.0, 0.5, 1.0, 4.9))), "supp": draw(st.sampled_from((0.0, 0.1, 1.0, 4.9, 5.2)))},
-                "ratify": bool(flow["ratify"]) and (draw(st.booleans()) or mode == "dead"), "retry": True}
+                "ratify": bool(flow["ratify"]) and (draw(st.booleans()) or mode == "dead") and mode != "resent", "retry": True}
 
     return scenario
 
@@ -351,6 +359,36 @@ def _in_time_expectations(case: dict, att: dict, flow: dict) -> list[tuple[str, 
     return out
 
 
+def _resent_expectations(case: dict, att: dict, flow: dict) -> list[tuple[str, str, str]]:
+    """mode 'resent': the accept got through on the respondent's own 2nd / 3rd transmission (the earlier ones vanished entirely) and the
+    single confirm reached the respondent inside the 3 s that start - at the earliest - when that accept went on the air, and inside the 5 s
+    after the offer: both ends must succeed."""
+    if case.get("mode") != "resent" or case.get("third"):
+        return []
+    t0 = att["t0"]
+    s_id, r_id = flow["supp"][0], flow["resp"][0]
+    log = [e for e in att["log"] if e["from"] != "third"]
+    offs = [e for e in log if e["phase"] == "offer" and e["frame"][7:16] == s_id]
+    accs = [e for e in log if e["phase"] == "accept" and e["frame"][7:16] == r_id]
+    cons = [e for e in log if e["phase"] == "confirm" and e["frame"][7:16] == s_id]
+    rr, ss = att.get("resp"), att.get("supp")
+    if len(offs) != 1 or not accs or len(cons) != 1 or not rr or not ss:
+        return []
+    if any(not (e["fate"] and not e["fate"].get("echo", True) and all(c["lose"] for c in e["fate"]["copies"])) for e in accs[:-1]) or accs[-1]["fate"]:
+        return []  # not the shape this expectation is about
+    off_air = off_arr = offs[0]["t"] - t0
+    acc = accs[-1]["t"] - t0
+    con_arr = cons[0]["t"] - t0 + min(c["d"] for c in (cons[0]["fate"] or {"copies": [{"d": 0.0}]})["copies"])
+    if not (rr["t_start"] + 0.05 <= off_arr <= rr["t_start"] + 5.0 - MARGIN):
+        return []
+    if not acc <= min(off_air + 5.0, ss["t_start"] + 5.1) - MARGIN:
+        return []
+    if not (con_arr <= acc + 3.0 - MARGIN and con_arr <= off_arr + 5.0 - MARGIN):
+        return []
+    why = f"the accept went on the air {acc - off_air:.2f} s after the offer (transmission {len(accs)}) and the confirm reached the respondent {con_arr - acc:.2f} s after it"
+    return [("supp", "accept-resent", why), ("resp", "confirm-after-resent-accept", why)]
+
+
 def judge(case: dict, obs: dict) -> list[tuple[dict, str]]:
     out: list[tuple[dict, str]] = []
     flow = FLOWS[case["flow"]]
@@ -376,7 +414,7 @@ def judge(case: dict, obs: dict) -> list[tuple[dict, str]]:
         # stated waits: a frame that reaches the waiting end well inside its stated wait (offer 5 s, accept 5 s, confirm 3 s,
         # addenda 3 s) must be accepted - giving up earlier is not 'ending within its stated waits'
         if k == 0:
-            for role, ph, why in _in_time_expectations(case, att, flow):
+            for role, ph, why in _in_time_expectations(case, att, flow) + _resent_expectations(case, att, flow):
                 rec = att.get(role)
                 if rec and rec["outcome"] == "raised" and rec.get("is_binding_error"):
                     out.append(({"clause": "gives-up-inside-stated-wait", "role": role, "phase": ph}, f"{flow['name']}: {role} raised {rec['exc']} ({rec['text'][:80]}) although {why}"))
